@@ -863,11 +863,23 @@ pub fn collect_typedefs(
     report_redefined_types(diagnostics, hir, hir_table);
     predeclare_types(env.current_mut(), hir, hir_table);
 
+    // Items may be written in any order and in any file of the package: what the other
+    // definitions look up by name (extern types, then traits) is defined first.
+    for item in hir.toplevels.iter() {
+        if let hir::Def::ExternType(ext) = hir_table.def(*item) {
+            define_extern_type(env, diagnostics, ext);
+        }
+    }
+    for item in hir.toplevels.iter() {
+        if let hir::Def::TraitDef(trait_def) = hir_table.def(*item) {
+            define_trait(env, diagnostics, trait_def);
+        }
+    }
+
     for item in hir.toplevels.iter() {
         match hir_table.def(*item) {
             hir::Def::EnumDef(enum_def) => define_enum(env, diagnostics, enum_def),
             hir::Def::StructDef(struct_def) => define_struct(env, diagnostics, struct_def),
-            hir::Def::TraitDef(trait_def) => define_trait(env, diagnostics, trait_def),
             hir::Def::ImplBlock(impl_block) => {
                 if let Some(trait_name) = &impl_block.trait_name {
                     define_trait_impl(env, diagnostics, impl_block, trait_name, hir_table);
@@ -877,8 +889,8 @@ pub fn collect_typedefs(
             }
             hir::Def::Fn(func) => define_function(env, diagnostics, func),
             hir::Def::ExternGo(ext) => define_extern_go(env, diagnostics, ext),
-            hir::Def::ExternType(ext) => define_extern_type(env, diagnostics, ext),
             hir::Def::ExternBuiltin(ext) => define_extern_builtin(env, diagnostics, ext),
+            hir::Def::TraitDef(..) | hir::Def::ExternType(..) => {}
         }
     }
 }
